@@ -1,5 +1,5 @@
 ENTRY = dict(
-    runner="C32", pkg="./cmd/c32", corr=["Corr.C32Corr"], gen=True, n=dict(quick=120, thorough=3000),
+    runner="C32", pkg="./cmd/c32", corr=["Corr.C32Corr"], gen=["dicttls"], n=dict(quick=120, thorough=3000),
     rule="Gen/Dict.v is regenerated from REPO/dicttls (go/parser + go/types, every Dict*ValueIndexed/NameIndexed variable) before the "
          "proof build; the 28 compiled table pairs are compared entry by entry with the generated tables (CDictLive) and checked on the Go "
          "side for value->name->value. JSON half: every listed parrot (2 connections) and n runner-generated hellos whose cipher suites, "
